@@ -185,12 +185,15 @@ def gen_shifts(t, Tr, m):
         ]
         for key, sty, rty, a, b, named, inherent in forms:
             s += specimpl(G, Tr, rty, sty, m, req(b), f'{a}.bn_ops_{m}_res({amt(b)})', TN)
+            # the reference/assign forms delegate to the by-value trait form; when that one cannot carry an
+            # `ensures` (named-return limitation) all they know - and state - is the trait-level `r == *_spec`
+            named = named and inh_named
             fns.append(fn_entry(key, named, f'{a}.bn_ops_{m}_post({amt(b)}, r)' if named else None,
                                 canon(t, 'val') if inherent else None))
         for key, rty, b in [(f'impl({Tr}Assign<{P}>for{TN})::{m}_assign', P, 'rhs'),
                             (f'impl({Tr}Assign<&{P}>for{TN})::{m}_assign', f'&{P}', '(*rhs)')]:
             s += specimpl(G, Tr + 'Assign', rty, TN, m + '_assign', req(b), f'(*self).bn_ops_{m}_res({amt(b)})', TN, assign=True)
-            fns.append(fn_entry(key, False, f'(*old(self)).bn_ops_{m}_post({amt(b)}, *final(self))'))
+            fns.append(fn_entry(key, False, f'(*old(self)).bn_ops_{m}_post({amt(b)}, *final(self))' if inh_named else None))
         specs.append(f'//! spec bn_ops_s_{t}_{m}_{pname}\n' + s)
     return ''.join(specs) + ''.join(fns)
 
